@@ -20,6 +20,7 @@ def run(ctx, db, tier):
     refill_only_when_empty(ctx, db, 'C08.refill-only-when-empty')
     try_lock(ctx, db, 'C08.try-lock')
     release_returns_owner(ctx, db, 'C08.release-returns-new-owner')
+    C07.ownership_unique(ctx, db, 'C08.ownership-not-forgotten')
     C07.subscribe(ctx, db, 'C08.free-path-installs-doorman')
     atomic.check_roles(ctx, db, 'C08.request-links-visible', only_functions={'cocls::mutex::ready', 'cocls::mutex::unlock', 'cocls::mutex::build_queue', 'cocls::awaiter::subscribe'}, floor=4)
 
